@@ -246,6 +246,26 @@ pub fn arb_history(o: HistOpts) -> BoxedStrategy<History> {
                         pre.push(reply(Body::Lt438 { nonce: algs, drop_nonce: false }, Auth::None));
                     }
                 }
+                // more than ten requests in flight, each answered by a reply that fails authentication (then ignored on
+                // unreliable transport): per-transaction state must not be capped at the DEFAULT limit of ten
+                (Mech::ShortTerm(_), 3..=7) | (Mech::LongTerm, 4..=7) if cfg.max_tx >= 11 && cfg.reliable.is_none() => {
+                    let n = cfg.max_tx.min(24);
+                    for _ in 0..n {
+                        pre.push(send.clone());
+                    }
+                    pre.push(Op::Advance(20_000_000));
+                    for i in 0..n {
+                        pre.push(Op::Deliver(Reply {
+                            target: Target::Outstanding(i as u8),
+                            body: Body::Success,
+                            extra: 0,
+                            auth: if i % 2 == 0 { Auth::CorruptMi } else { Auth::None },
+                            fp: fp.clone(),
+                            dup: false,
+                            twist: 0,
+                        }));
+                    }
+                }
                 (Mech::ShortTerm(None), 1..=2) if cfg.max_tx > 0 => {
                     pre.push(send.clone());
                     pre.push(Op::Advance(20_000_000));
